@@ -13,9 +13,12 @@ SPEC = {
         _bin("c13-nist", "^TestC13(P384|GroupNIST)$"),
         _bin("c13-edwards", "^TestC13(Goldilocks|GoldilocksLowOrder|FourQ|Ristretto)$"),
         _bin("c13-bls", "^TestC13(BLSGroups|Pairing|PairingConcurrent|HashToGroup)$"),
-        # white-box: the internal edwards25519 point type of sign/ed25519
+        # reduced set on the other arithmetic back-ends (fourq, fp448/goldilocks, p384, ristretto255) — also in the quick tier
+        {"name": "c13-alt", "pkg": "./zz_verif/c13", "run": "^TestC13AltBackends$",
+         "configs": [c for c in _CFGS if c["name"] != "default"], "quick_configs": ["purego", "alloff"], "shards": {"quick": 1, "thorough": 2}},
+        # white-box: the internal edwards25519 point type of sign/ed25519 (all three back-end configurations in both tiers)
         {"name": "c13-ed25519", "pkg": "./sign/ed25519", "run": "^TestC13", "whitebox": True, "configs": _CFGS,
-         "quick_configs": ["default"], "shards": {"quick": 1, "thorough": 4}},
+         "quick_configs": ["default", "purego", "alloff"], "shards": {"quick": 1, "thorough": 4}},
     ],
     "rule": "case = (curve API, exponent a of P=a*G, relation giving Q, scalar(s) of the full admitted byte width) drawn by rapid, plus plain enumerations "
             "(every scalar within +-24 (thorough +-400) of 0, r, 2r, 3r and of the top of the width; CombinedMult/doubleMult on the grid 0<=m,n<=12 (thorough 40) x ~40 structured Q "
